@@ -84,4 +84,27 @@ var specs = map[string]*propSpec{
 		},
 		ExpectProbes: []string{"concurrent_phases", "fragmentation_burst", "defrag_moved_records", "defrag_passes_noop", "readers_during_defrag", "handover"},
 	},
+	"C06": chainSpec("C06", "exploration"),
+}
+
+var chainComponents = map[string][]string{
+	"real":      {"lib/chain (instrumented)", "lib/utxo (instrumented)", "lib/btc (instrumented)", "lib/script, lib/secp256k1, lib/others/snappy (as they are)"},
+	"simulated": append([]string{"disk (simos pass-through + effect log + crash images)", "miners and block delivery (loss, duplication, reordering, withheld parents)", "independent signer with its own legacy/BIP143/BIP341 digests", "operator (idle, save, tick, close, reopen)"}, commonSim...),
+	"restated":  {"client/main.go dispatch of received blocks (parent unknown -> wait and retry; RPC path CheckBlock+AcceptBlock)", "tail of NewChainExt / client do_the_blocks start-up recovery (the harness must set its own consensus parameters between opening and re-applying blocks)"},
+}
+
+func chainSpec(id, level string) *propSpec {
+	return &propSpec{
+		ID: id, Harness: "chainsim", Level: level, Chunk: 6, Workers: 16,
+		Quick:    tierParams{Runs: 400, BudgetS: 75, PerRunS: 120, RaceRuns: 0, RaceBudgetS: 0, ShrinkAttempts: 120, ShrinkS: 90},
+		Thorough: tierParams{Runs: 20000, BudgetS: 1200, PerRunS: 300, RaceRuns: 0, RaceBudgetS: 0, ShrinkAttempts: 400, ShrinkS: 300},
+		Rule: "one case = rule-set parameters (activation heights, main/test-net difficulty rule, block-store and snapshot knobs) + a block tree grown by the simulated miner on top of a 115-block prefix (forks of depth 1-6, equal-work siblings, children of invalid blocks, blocks violating one contextual rule) + a delivery schedule (reordering, duplicates, losses, late arrivals) interleaved with idle/save/tick/reopen + scheduler seed. distinct_nontrivial = distinct (schedule-trace hash, final tip + unspent-set size) among runs with >=2 goroutine switches or >=1 injected fault.",
+		Components: chainComponents,
+		Assumptions: []string{
+			"script validity is taken from the generator's ground-truth label per input (valid signature / one corruption); the reference ledger does not interpret scripts",
+			"all blocks carry the same proof-of-work target in the quick tier (most work = most blocks, first seen wins ties); retarget boundaries need 2016-block chains",
+			"fork depth <= 6, <= 36 blocks beyond the prefix, <= 7 transactions per block",
+		},
+		ExpectProbes: []string{"reorg", "accepted", "refused", "clean_reopen"},
+	}
 }
